@@ -304,7 +304,7 @@ def check_callable(item, acc):
 # ---------------------------------------------------------------------------------------------
 # classes
 
-CLASS_STYLES = ["plain", "slots", "dataclass", "namedtuple", "no_init", "user_new", "init_args", "factory_new", "factory_new_init", "setstate"]
+CLASS_STYLES = ["plain", "slots", "dataclass", "namedtuple", "no_init", "user_new", "init_args", "factory_new", "factory_new_init", "setstate", "abstract_members"]
 CHILDREN = [None, "plain_noinit", "plain_init_args", "dbc_noinit", "dbc_init_args", "dbc_new", "plain_new",
             "plain_grandchild", "dbc_grandchild", "plain_mixin_init"]  # constructor inherited by the class that is instantiated
 
@@ -338,6 +338,11 @@ def render_class(style, inv, child, dbc, contracts):
         elif style == "user_new":
             w.append("    def __new__(cls, *a, **k):\n        o = super().__new__(cls)\n        o.made = True\n        return o\n"
                      "    def __init__(self):\n        self.v = 1\n")
+        elif style == "abstract_members":
+            # abstract public members of a class with invariants stay abstract (the flag lives in the function's __dict__)
+            if not dbc:
+                w[-1] = deco + "class Root(abc.ABC):\n"
+            w.append("    v = 1\n    @abc.abstractmethod\n    def am(self):\n        return 0\n    @property\n    @abc.abstractmethod\n    def ap(self):\n        return 0\n")
         elif style == "setstate":
             # state restored by __setstate__ on a blank instance (copy, pickle): __setstate__ acts as a constructor
             w.append("    def __init__(self):\n        self.v = 1\n    def __getstate__(self):\n        return {'v': self.v}\n"
@@ -397,6 +402,15 @@ def class_script(ns, style, child):
     if style == "init_args":
         rec("Root(5, w=6)", lambda: (Root(5, w=6).v, Root(5, w=6).w))
         rec("Root(v=3)", lambda: Root(v=3).v)
+    if style == "abstract_members":
+        rec("abstractmethods", lambda: tuple(sorted(Root.__abstractmethods__)))
+        rec("am_flag", lambda: getattr(inspect.getattr_static(Root, "am"), "__isabstractmethod__", False))
+        rec("ap_flag", lambda: getattr(inspect.getattr_static(Root, "ap"), "__isabstractmethod__", False))
+        Impl = type("Impl", (Root,), {"am": lambda self: 1, "ap": property(lambda self: 2)})
+        Partial = type("Partial", (Root,), {"am": lambda self: 1})
+        rec("Impl()", lambda: (Impl().am(), Impl().ap, Impl().pub(1)))
+        rec("Partial()", lambda: type(Partial()).__name__)
+        rec("Partial_abstractmethods", lambda: tuple(sorted(Partial.__abstractmethods__)))
     if style in ("factory_new", "factory_new_init"):
         rec("Root(1)", lambda: (type(Root(1)).__name__, Root(1).v))
         rec("Root(kind=1)", lambda: type(Root(kind=1)).__name__)
